@@ -14,6 +14,12 @@ history IS a history of the timer model (`Lemmas/TimerSvc.lean: svc_refines`) an
 theorems about `Timer.run` hold for the service's manager.  The callback body is a
 function of the service state at the moment the callback is entered: script 1 is set to
 that body immediately before the consumer's receive.
+
+User code inside `checkExpired`: the completion callback `wait.CB(ErrTimeout, nil)` of a
+timed-out request.  Besides doing nothing it may issue a follow-up request (`reqAgain`: the
+retry idiom) — `doRequestEx` from INSIDE the check timer's own callback: a new table entry
+and `tryStartCheckTimer`, which finds `timerCheckExpired > 0` (it is the timer whose callback
+is running) and arms nothing.
 -/
 namespace Cell2v.TimerSvc
 open Cell2v.Timer
@@ -26,15 +32,27 @@ structure Svc where
   t : State := {}                      -- the run service's timer manager
   own : Nat := 0                       -- Service.timerCheckExpired (0: none)
   pending : List (Nat × Nat) := []     -- Service.Handlers: (tag, deadline)
+  again : List Nat := []               -- tags whose completion callback issues a follow-up request when called with ErrTimeout
   deriving Inhabited
 
 inductive SOp where
   | req (k : Nat)       -- RequestEx: table entry, then tryStartCheckTimer
+  | reqAgain (k : Nat)  -- the same, with a completion callback that on timeout issues request `k + followOffset`
   | resp (k : Nat)      -- the response arrives: the entry is removed
   | tick                -- the loop receives the head of the timer queue: Mgr.Do → checkExpired
   | expire (id : Nat)   -- the time.AfterFunc goroutine
   | advance (d : Nat)
   deriving Repr, Inhabited
+
+/-- tag of the follow-up request issued by the timeout callback of request `k` -/
+def followOffset : Nat := 1000
+
+/-- the entries `checkExpired` drops at time `now` (`one.Timeout < now`) -/
+def expiredAt (v : Svc) : List (Nat × Nat) := v.pending.filter fun p => decide (p.2 < v.t.now)
+
+/-- the follow-up requests their completion callbacks issue (inside `checkExpired`) -/
+def followUps (v : Svc) : List (Nat × Nat) :=
+  ((expiredAt v).filter fun p => v.again.contains p.1).map fun p => (p.1 + followOffset, v.t.now + reqTimeout)
 
 /-- body of `checkExpired` as a callback script: `freeTimer` when the table is empty -/
 def body (v : Svc) : List Act := if v.pending.isEmpty then [Act.cancel v.own] else []
@@ -48,6 +66,7 @@ def entered (v : Svc) : Bool :=
 /-- the primitive timer steps of one service step -/
 def opsOf (v : Svc) : SOp → List Op
   | .req _ => if v.own = 0 then [.add (checkPeriod : Nat) 1 []] else []
+  | .reqAgain _ => if v.own = 0 then [.add (checkPeriod : Nat) 1 []] else []
   | .resp _ => []
   | .tick => .defScript 1 (body v) :: .doNext 0 :: List.replicate ((body v).length + 1) .cbStep
   | .expire id => [.expire id]
@@ -57,13 +76,18 @@ def svcStep (v : Svc) (op : SOp) : Svc × List Event :=
   let r := runFrom v.t [] (opsOf v op)
   match op with
   | .req k =>
-    ({ t := r.1, own := if v.own = 0 then r.1.nextId else v.own,
-       pending := v.pending ++ [(k, v.t.now + reqTimeout)] }, r.2)
+    ({ v with
+        t := r.1
+        own := (if v.own = 0 then r.1.nextId else v.own)
+        pending := v.pending ++ [(k, v.t.now + reqTimeout)] }, r.2)
+  | .reqAgain k =>
+    ({ t := r.1, own := (if v.own = 0 then r.1.nextId else v.own),
+       pending := v.pending ++ [(k, v.t.now + reqTimeout)], again := k :: v.again }, r.2)
   | .resp k => ({ v with t := r.1, pending := v.pending.filter fun p => p.1 != k }, r.2)
   | .tick =>
     if entered v then
       if v.pending.isEmpty then ({ v with t := r.1, own := 0 }, r.2)
-      else ({ v with t := r.1, pending := v.pending.filter fun p => !(decide (p.2 < v.t.now)) }, r.2)
+      else ({ v with t := r.1, pending := (v.pending.filter fun p => !(decide (p.2 < v.t.now))) ++ followUps v }, r.2)
     else ({ v with t := r.1 }, r.2)
   | .expire _ => ({ v with t := r.1 }, r.2)
   | .advance _ => ({ v with t := r.1 }, r.2)
